@@ -265,6 +265,29 @@ def static_obligations():
         out.append(dict(name=f"{name}: __reduce_ex__(2) reconstruction arguments satisfy the signature of __new__",
                         status="discharged" if ok else "refuted", backend="evaluation on the live class", secs=0.0,
                         witness=None if ok else {"a": str(x)}, detail=det, kind="vc"))
+        # every pickle protocol (0 and 1 take another reduce path than 2+), copy and deepcopy, valid and invalid texts
+        import copy as _copy
+        import pickle as _pickle
+        bad = None
+        for text in ({"IBAN": "DE89370400440532013000", "BIC": "GENODEM1GLS", "BBAN": "370400440532013000"}[name], "X1", ""):
+            y = make_native(name, text)
+            ops = [(f"pickle protocol {p_}", (lambda v, p_=p_: _pickle.loads(_pickle.dumps(v, protocol=p_))))
+                   for p_ in range(_pickle.HIGHEST_PROTOCOL + 1)] + [("copy", _copy.copy), ("deepcopy", _copy.deepcopy)]
+            for label, op in ops:
+                try:
+                    z = op(y)
+                    same = type(z) is type(y) and z == y and str(z) == str(y) and hash(z) == hash(y) and \
+                        getattr(z, "country_code", None) == getattr(y, "country_code", None) and \
+                        (name != "IBAN" or (z.bban == y.bban and z.bban.country_code == y.bban.country_code))
+                    if not same:
+                        bad = bad or (text, label, f"copy {z!r} differs from {y!r}")
+                except Exception as ex:  # noqa: BLE001
+                    bad = bad or (text, label, f"raises {type(ex).__name__}: {ex}")
+        out.append(dict(name=f"{name}: copy, deepcopy and every pickle protocol return an equal object of the same class "
+                             "(valid and invalid texts; bounded: three texts)", status="discharged" if not bad else "refuted",
+                        backend="evaluation on the live class", secs=0.0,
+                        witness=None if not bad else {"a": bad[0], "op": bad[1]},
+                        detail="" if not bad else f"replayed natively: {name}({bad[0]!r}) under {bad[1]}: {bad[2]}", kind="bounded"))
     return out
 
 
